@@ -779,7 +779,7 @@ func init() {
 	Checks["C02"] = func(r *evid.Run) {
 		registerStandardExt()
 		c02stats = NewStats()
-		dl := deadline(r, 55*time.Second, 20*time.Minute)
+		dl := deadline(r, 120*time.Second, 20*time.Minute)
 		exploreChoice(r, "c02.unusable-keys", -1, dl)
 		exploreChoice(r, "c02.evidence-copies", -1, dl)
 		exploreChoice(r, "c02.key-object-reused", -1, dl)
